@@ -63,30 +63,40 @@ func CreateTypesTable(i interface{}) TypesTable {
 func FieldsFromStruct(t reflect.Type) TypesTable {
 	types := make(TypesTable)
 	t = dereference(t)
-	if t == nil {
+	if t == nil || t.Kind() != reflect.Struct {
 		return types
 	}
-
-	switch t.Kind() {
-	case reflect.Struct:
-		for i := 0; i < t.NumField(); i++ {
-			f := t.Field(i)
-
-			if f.Anonymous {
-				for name, typ := range FieldsFromStruct(f.Type) {
-					if _, ok := types[name]; ok {
-						types[name] = Tag{Ambiguous: true}
-					} else {
-						types[name] = typ
-					}
-				}
+	// Resolve every reachable exported name the way Go does (shallowest depth, unique at that depth).
+	for _, name := range fieldNames(t, map[reflect.Type]bool{}) {
+		if f, ok := t.FieldByName(name); ok {
+			if f.PkgPath == "" {
+				types[name] = Tag{Type: f.Type}
 			}
-
-			types[f.Name] = Tag{Type: f.Type}
+		} else {
+			types[name] = Tag{Ambiguous: true}
 		}
 	}
-
 	return types
+}
+
+// fieldNames collects the exported field names reachable through embedded structs.
+func fieldNames(t reflect.Type, seen map[reflect.Type]bool) []string {
+	t = dereference(t)
+	if t == nil || t.Kind() != reflect.Struct || seen[t] {
+		return nil
+	}
+	seen[t] = true
+	var names []string
+	for i := 0; i < t.NumField(); i++ {
+		f := t.Field(i)
+		if f.Anonymous {
+			names = append(names, fieldNames(f.Type, seen)...)
+		}
+		if f.PkgPath == "" {
+			names = append(names, f.Name)
+		}
+	}
+	return names
 }
 
 func dereference(t reflect.Type) reflect.Type {
